@@ -593,7 +593,12 @@ impl Future for ServerWorker {
         let this = self.as_mut().get_mut();
 
         // `StopWorker` message handler
-        if let Poll::Ready(Some(Stop { graceful, tx })) = this.stop_rx.poll_recv(cx) {
+        let stop = this.stop_rx.poll_recv(cx);
+
+        // `Ready(None)`: every `WorkerHandleServer` is gone, no stop command can arrive any more.
+        let stop_closed = matches!(stop, Poll::Ready(None));
+
+        if let Poll::Ready(Some(Stop { graceful, tx })) = stop {
             let num = this.counter.total();
             if num == 0 {
                 info!("shutting down idle worker");
@@ -713,7 +718,12 @@ impl Future for ServerWorker {
                             .call((guard, msg.io))
                             .into_inner();
                     }
-                    None => return Poll::Ready(()),
+                    // The accept thread has exited, which it only does on `Stop`. The server sends
+                    // this worker's stop command right after waking it, so unless the server is gone
+                    // too, wait for that command (its waker is registered above) instead of
+                    // resolving: connections in progress must be shut down as it says.
+                    None if stop_closed => return Poll::Ready(()),
+                    None => return Poll::Pending,
                 };
             },
         }
